@@ -180,12 +180,17 @@ def statement_hashes(pid):
 
 
 # ---------------------------------------------------------------- running both sides
-def run_lines(exe, lines, shards=16, timeout=600, ulimit_stack=False):
+SHARD_TIMEOUT = 600        # seconds per shard; the thorough tier raises it (set in Check.__init__)
+
+
+def run_lines(exe, lines, shards=16, timeout=None, ulimit_stack=False):
     """feed request lines to `exe` over `shards` processes; returns list of responses (same order).
     A process that dies mid-way yields 'ABORT' for the request it died on and is restarted."""
     n = len(lines)
     if n == 0:
         return []
+    if timeout is None:
+        timeout = SHARD_TIMEOUT
     shards = max(1, min(shards, n))
     chunks = [list(range(i, n, shards)) for i in range(shards)]
     res = [None] * n
@@ -315,6 +320,8 @@ class Check:
 
     def __init__(self, tier, seed):
         self.tier, self.seed = tier, seed
+        global SHARD_TIMEOUT
+        SHARD_TIMEOUT = 600 if tier == "quick" else 7200
         self.rng = random.Random(seed)
         self.t0 = time.time()
         self.notes = []
